@@ -53,7 +53,20 @@ func (e *Enc) call(fr *frame, st *State, c *ssa.CallCommon, res ssa.Value, pos t
 	for i, a := range c.Args {
 		args[i] = fr.val(st, a)
 	}
-	return e.callWith(fr, st, c, fnv, args, res, pos)
+	out := e.callWith(fr, st, c, fnv, args, res, pos)
+	if e.contract != nil && len(e.contract.CallSites) > 0 {
+		name, fn, cargs := "<dynamic>", (*ssa.Function)(nil), args
+		if c.IsInvoke() {
+			name = c.Method.Name()
+			cargs = append([]Value{fnv}, args...)
+		} else if sc := c.StaticCallee(); sc != nil {
+			name, fn = sc.Name(), sc
+		} else if fnv.clo != nil {
+			name, fn = fnv.clo.fn.Name(), fnv.clo.fn
+		}
+		e.callsiteAfter(fr, st, name, fn, cargs, out, pos)
+	}
+	return out
 }
 
 func resultType(c *ssa.CallCommon) types.Type {
@@ -305,7 +318,11 @@ func (e *Enc) invoke(fr *frame, st *State, c *ssa.CallCommon, recv Value, args [
 		return m(e, fr, st, recv, args, prefix, rt)
 	}
 	if con := e.v.db.Ifaces[key]; con != nil {
-		return e.applyIfaceContract(fr, st, con, c, recv, args, prefix, rt, pos)
+		res := e.applyIfaceContract(fr, st, con, c, recv, args, prefix, rt, pos)
+		if con.Dispatch {
+			e.dispatchFacts(st, c, recv, res)
+		}
+		return res
 	}
 	if e.v.ifacePure(c.Method) {
 		e.v.useTrusted("pure:" + key)
@@ -722,7 +739,10 @@ func (e *Enc) callsiteChecks(fr *frame, st *State, callee string, fn *ssa.Functi
 		return
 	}
 	for _, cs := range con.CallSites {
-		if cs.Callee != callee && !(fn != nil && (funcDisplayName(fn) == cs.Callee || strings.HasSuffix(funcDisplayName(fn), "."+cs.Callee))) {
+		if !callsiteMatches(cs, callee, fn) {
+			continue
+		}
+		if cs.AssumeAfter {
 			continue
 		}
 		env := e.frameEnv(fr, st)
@@ -746,6 +766,38 @@ func (e *Enc) callsiteChecks(fr *frame, st *State, callee string, fn *ssa.Functi
 	}
 }
 
+func callsiteMatches(cs *CallSiteSpec, callee string, fn *ssa.Function) bool {
+	return cs.Callee == callee || (fn != nil && (funcDisplayName(fn) == cs.Callee || strings.HasSuffix(funcDisplayName(fn), "."+cs.Callee)))
+}
+
+// callsiteAfter applies the "assume-after" clauses of the enclosing contract
+// to the result of a call that has just returned.
+func (e *Enc) callsiteAfter(fr *frame, st *State, callee string, fn *ssa.Function, args []Value, res Value, pos token.Pos) {
+	con := e.contract
+	if con == nil || fr.inlined {
+		return
+	}
+	for _, cs := range con.CallSites {
+		if !cs.AssumeAfter || !callsiteMatches(cs, callee, fn) {
+			continue
+		}
+		env := e.frameEnv(fr, st)
+		e.lenientLocals(fr, st, env)
+		for i, a := range args {
+			env.vars[fmt.Sprintf("arg%d", i)] = a
+		}
+		if len(res.tuple) > 0 {
+			env.results = res.tuple
+		} else if res.term != "" {
+			env.results = []Value{res}
+		}
+		env.where = "callsite (after) " + callee + " at " + e.pos(pos)
+		e.v.callsiteHits[con.Key+"/"+cs.Clause.Label]++
+		st.assume(e.evalClauseAssume(env, cs.Clause))
+		e.v.useTrusted("assume:" + con.Key + ":" + cs.Clause.Label + ": after " + callee + ": " + cs.Clause.Src)
+	}
+}
+
 func (e *Enc) sendSiteChecks(fr *frame, st *State, ch, val Value, cond string, pos token.Pos) {
 	con := e.contract
 	if con == nil || len(con.SendSites) == 0 {
@@ -753,6 +805,18 @@ func (e *Enc) sendSiteChecks(fr *frame, st *State, ch, val Value, cond string, p
 	}
 	for _, cs := range con.SendSites {
 		env := e.frameEnv(fr, st)
+		if f := strings.Fields(cs.Callee); len(f) == 2 {
+			// "tag ElemType": the clause is about sends on channels of that element type
+			want, ok := env.tryType(f[1])
+			if !ok {
+				e.v.specErrors = append(e.v.specErrors, fmt.Sprintf("%s:%d: sendsite: unknown channel element type %s", cs.Clause.File, cs.Clause.Line, f[1]))
+				continue
+			}
+			ct, isChan := ch.typ.Underlying().(*types.Chan)
+			if !isChan || !types.Identical(ct.Elem(), want) {
+				continue
+			}
+		}
 		e.lenientLocals(fr, st, env)
 		env.vars["ch"] = ch
 		env.vars["m"] = val
@@ -1039,4 +1103,58 @@ func (e *Enc) lemmaInstance(env *SpecEnv, c *Clause) (string, bool) {
 	}()
 	e.v.lemmasUsed[lm.Name] = true
 	return res, ok
+}
+
+// dispatchFacts: for an interface method declared "dispatch", the result for
+// each implementation in the repository whose method body is a single
+// "return <constant>" is that constant (read from the implementation's SSA).
+func (e *Enc) dispatchFacts(st *State, c *ssa.CallCommon, recv Value, res Value) {
+	it, ok := c.Value.Type().Underlying().(*types.Interface)
+	if !ok || res.term == "" {
+		return
+	}
+	var pkgPaths []string
+	for p := range e.v.ssaPkgs {
+		if strings.HasPrefix(p, repoMod) {
+			pkgPaths = append(pkgPaths, p)
+		}
+	}
+	sort.Strings(pkgPaths)
+	for _, pp := range pkgPaths {
+		pkg := e.v.pkgByPath[pp]
+		if pkg == nil {
+			continue
+		}
+		for _, name := range pkg.Scope().Names() {
+			tn, ok := pkg.Scope().Lookup(name).(*types.TypeName)
+			if !ok || tn.IsAlias() {
+				continue
+			}
+			if _, isIface := tn.Type().Underlying().(*types.Interface); isIface {
+				continue
+			}
+			for _, t := range []types.Type{tn.Type(), types.NewPointer(tn.Type())} {
+				if !types.Implements(t, it) {
+					continue
+				}
+				sel := e.v.prog.MethodSets.MethodSet(t).Lookup(c.Method.Pkg(), c.Method.Name())
+				if sel == nil {
+					continue
+				}
+				fn := e.v.prog.MethodValue(sel)
+				if fn == nil || len(fn.Blocks) != 1 {
+					continue
+				}
+				ret, ok := fn.Blocks[0].Instrs[len(fn.Blocks[0].Instrs)-1].(*ssa.Return)
+				if !ok || len(ret.Results) != 1 {
+					continue
+				}
+				k, ok := ret.Results[0].(*ssa.Const)
+				if !ok {
+					continue
+				}
+				st.assume(implies(fmt.Sprintf("(= (itag %s) %d)", recv.term, e.u.tagOf(t)), eq(res.term, e.constValue(k).term)))
+			}
+		}
+	}
 }
